@@ -61,3 +61,18 @@ Theorem C02_conn_timed_replay_registry :
   forall evs, xreg_ops (flat_x evs) = flat (tops_of evs).
 Proof. exact flat_x_ops. Qed.
 Print Assumptions C02_conn_timed_replay_registry.
+
+(* every tracked entry has its timeout record, in every reachable state *)
+Theorem C02_every_tracked_entry_has_its_record :
+  forall ops e, In e (fst (trun ops)) -> exists a u, In (e_ph e, e_id e, a, u) (snd (trun ops)).
+Proof. intros ops e H. exact (has_rec_run ops ([], []) (fun x (F : In x []) => match F with end) e H). Qed.
+Print Assumptions C02_every_tracked_entry_has_its_record.
+
+(* the oracle of the property, for every history: whatever is tracked right after a sweep - in particular whatever a
+   flight can then be matched to - has a record within its lifetime, 10 min if never used, 6 h if used, the age
+   being counted from the record's creation at the ORIGINAL registration (only TAge changes it; duplicates do not) *)
+Theorem C02_tracked_after_sweep_within_original_lifetime :
+  forall ops e, In e (fst (trun (ops ++ [TSweep]))) ->
+    exists a u, In (e_ph e, e_id e, a, u) (snd (trun (ops ++ [TSweep]))) /\ rec_within (e_ph e, e_id e, a, u) = true.
+Proof. exact tracked_after_sweep_within. Qed.
+Print Assumptions C02_tracked_after_sweep_within_original_lifetime.
